@@ -63,6 +63,11 @@ def kind_of(exc):
         return "typeError"
     if isinstance(exc, ValueError):
         return "valueError"
+    if isinstance(exc, OverflowError):
+        # a finite epsilon above ~1.34e154 makes `epsilon ** 2` raise OverflowError inside total(): the operation is refused
+        # (and must be a no-op like any refusal) with a different exception class than the BudgetError the model
+        # predicts - counted as an observation (DESIGN 11.5), compared as a refusal
+        return "budgetError"
     return "other:" + type(exc).__name__
 
 
@@ -122,7 +127,7 @@ def gen_sequence(r):
         elif m < 0.95:
             e = 0.0
         else:
-            e = r.choice([-1.0, base * 1e-15, base * 1e-14, base * 2e-14, float("inf")])
+            e = r.choice([-1.0, base * 1e-15, base * 1e-14, base * 2e-14, float("inf"), 1e200, 2e154, 1.7e308, 1e160])
         m = r.u01()
         if m < 0.55:
             d = 0.0
@@ -417,6 +422,8 @@ def compare(ctx, seq, recs, outs):
 
 
 FIXED_SEQS = [
+    (1.0, 0.5, 0.01, [], [("spend", 0.25, 0.1), ("check", 1e200, 0.9), ("total",), ("spend", 1e200, 0.9), ("total",), ("rebuild",)]),
+    (float("inf"), 1.0, 0.0, [], [("spend", 1e200, 0.0), ("total",), ("slack", 0.5), ("check", 1e200, 0.0), ("remaining", 2)]),
     (1e-170, 0.5, 0.1, [], [("spend", 5e-171, 0.0)] * 6 + [("total",)]),          # open known finding SIG_UNDERFLOW
     (1.0, 1e-20, 0.0, [], [("spend", 0.1, 1e-17), ("total",), ("spend", 0.1, 1e-21)] + [("spend", 0.01, 2e-21)] * 6),
     (1.0, 1e-15, 0.0, [], [("spend", 0.001, 1e-16)] * 12 + [("remaining", 2)]),
